@@ -10,6 +10,9 @@ import gen  # noqa: E402
 import rewrite as rw  # noqa: E402
 from gen import Contract, UnitFile  # noqa: E402
 
+sys.path.insert(0, HERE)
+from witness_gen import witnesses_for  # noqa: E402,F401  (replay inputs, see witness_gen.py)
+
 GT = "src/garden_type.rs"
 TC = "src/checks/type_checker.rs"
 AST = "src/parser/ast.rs"
